@@ -5,13 +5,14 @@
     form; the triple-quoted forms take the same bodies (and, raw, any characters at all).
     The whole path is proved for every style ([C12_string_compiles], [C12_bytes_compiles],
     [C12_raw_compiles]): the lexer model takes the spelling as ONE STRING / BYTES token, the
-    parser makes a literal of it, and its value is the string / the bytes.  (Raw bodies: without
-    the quote character; raw bytes literals are not covered.)  Known finding K01 (raw
+    parser makes a literal of it, and its value is the string / the bytes.  Raw bytes literals
+    likewise ([C12_raw_bytes_compile]); raw triple-quoted bodies may contain the quote character
+    wherever that does not end the literal early ([C12_raw_quotes_compile]).  Known finding K01 (raw
     triple-quoted literals containing U+0000 or U+10FFFF are rejected by the ANTLR runtime's
-    lexer) is the exclusion in [raw_ok3]. *)
+    lexer) is the exclusion in [raw_ok3] / [free3]. *)
 From Coq Require Import String Ascii.
 From Cel.Model Require Import Literals Surface.
-From Cel.Proofs Require Import LiteralProofs LexerRoundtrip.
+From Cel.Proofs Require Import LiteralProofs LexerRoundtrip RawLiterals.
 Open Scope N_scope.
 
 (** For every string s of Unicode scalar values, both one-quote styles and every
@@ -118,12 +119,39 @@ Theorem C12_raw_compiles : forall p q s,
   (raw_ok3 q s = true -> compile (text [TString (p :: q :: q :: q :: s ++ [q; q; q])]) = CExpr (ELit (VStr s))).
 Proof. exact raw_literal_compiles. Qed.
 
+(** Raw bytes literals: the UTF-8 encoding of the body, verbatim. *)
+Theorem C12_raw_bytes_compile : forall b p q s,
+  (b = ch "b" \/ b = ch "B") -> (p = ch "r" \/ p = ch "R") -> (q = 34 \/ q = 39) ->
+  (raw_ok1 q s = true -> compile (text [TBytes (b :: p :: q :: s ++ [q])]) = CExpr (ELit (VBytes (flat_map utf8_enc1 s)))) /\
+  (raw_ok3 q s = true -> compile (text [TBytes (b :: p :: q :: q :: q :: s ++ [q; q; q])]) = CExpr (ELit (VBytes (flat_map utf8_enc1 s)))).
+Proof. exact raw_bytes_literal_compiles. Qed.
+
+(** Raw triple-quoted bodies with quotes in them: every body in which three consecutive quotes
+    do not occur before the closing delimiter ([free3]: no position of the body starts three
+    quotes of body ++ two quotes - so the body does not end with a quote either), string and bytes. *)
+Theorem C12_raw_quotes_compile : forall b p q s,
+  (b = ch "b" \/ b = ch "B") -> (p = ch "r" \/ p = ch "R") -> (q = 34 \/ q = 39) -> free3 q s = true ->
+  compile (text [TString (p :: q :: q :: q :: s ++ [q; q; q])]) = CExpr (ELit (VStr s)) /\
+  compile (text [TBytes (b :: p :: q :: q :: q :: s ++ [q; q; q])]) = CExpr (ELit (VBytes (flat_map utf8_enc1 s))).
+Proof. exact raw_long_quotes_compile. Qed.
+
+Theorem C12_raw_ok3_free : forall q s, raw_ok3 q s = true -> free3 q s = true.
+Proof. exact raw_ok3_free. Qed.
+
+Example C12_ex_raw_quotes :
+  free3 39 $"it's ""x"" '' ok" = true /\ free3 39 $"ends with '" = false /\ free3 39 $"a'''b" = false /\
+  compile $"br'''it's ''e''' " = CExpr (ELit (VBytes [105; 116; 39; 115; 32; 39; 39; 101])).
+Proof. repeat split. Qed.
+
 Example C12_ex_compiles : compile $"""h\n\u00e9"" " = CExpr (ELit (VStr [104; 10; 233])).
 Proof. exact (proj1 (C12_string_compiles 34 [104; 10; 233] [CVerb; CSimple; CU4] _ (or_introl eq_refl) eq_refl eq_refl)). Qed.
 Example C12_ex_raw : compile $"r'''a\b""c''' " = CExpr (ELit (VStr $"a\b""c")).
 Proof. exact (proj2 (C12_raw_compiles (ch "r") 39 $"a\b""c" (or_introl eq_refl) (or_intror eq_refl)) eq_refl). Qed.
 
 Print Assumptions C12_raw_compiles.
+Print Assumptions C12_raw_bytes_compile.
+Print Assumptions C12_raw_quotes_compile.
+Print Assumptions C12_raw_ok3_free.
 Print Assumptions C12_string_compiles.
 Print Assumptions C12_bytes_compiles.
 Print Assumptions C12_string_roundtrip.
